@@ -55,6 +55,40 @@ SC_NOTE = "sanitizers (ASan+UBSan, asserts enabled) are part of the oracle"
 
 
 
+BATCH_SHADOW = [
+    "sdk/include/opentelemetry/sdk/common/circular_buffer.h",
+    "sdk/include/opentelemetry/sdk/common/atomic_unique_ptr.h",
+    "api/include/opentelemetry/common/spin_lock_mutex.h",
+    "sdk/include/opentelemetry/sdk/trace/batch_span_processor.h",
+    "sdk/src/trace/batch_span_processor.cc",
+    "sdk/include/opentelemetry/sdk/logs/batch_log_record_processor.h",
+    "sdk/src/logs/batch_log_record_processor.cc",
+]
+BATCH_SHADOW_SRCS = [
+    "sdk/src/trace/batch_span_processor.cc",
+    "sdk/src/logs/batch_log_record_processor.cc",
+]
+# plain (unshadowed) repository sources the shadowed classes need at link time
+BATCH_PLAIN = [
+    "sdk/src/trace/exporter.cc",
+    "sdk/src/logs/exporter.cc",
+    "sdk/src/logs/read_write_log_record.cc",
+    "sdk/src/logs/readable_log_record.cc",
+    "sdk/src/common/global_log_handler.cc",
+    "sdk/src/common/env_variables.cc",
+    "sdk/src/resource/resource.cc",
+    "sdk/src/resource/resource_detector.cc",
+    "sdk/src/version/version.cc",
+]
+SCHED_ASSUMPTIONS = [
+    "the schedule-controlled engine explores interleavings of synchronisation operations under sequential consistency; "
+    "weak-memory reorderings are not explored",
+    "liveness is bounded: no deadlock and completion within a step budget under a fairness quantum, in virtual time",
+    "only std::atomic/mutex/condition_variable/thread/this_thread/steady_clock/system_clock tokens are renamed in copies of the "
+    "processor sources; the compiled code is otherwise the repository's",
+]
+
+
 def _load_all():
     import glob
     import importlib.util
